@@ -100,7 +100,10 @@ func serveMain(args []string) {
 			id, _ := strconv.ParseInt(f[1], 10, 64)
 			fmt.Fprintf(out, "%d\n", redisemu.VerifClientWord(id))
 		case "PARSE":
-			b, _ := hex.DecodeString(f[1])
+			var b []byte
+			if f[1] != "-" {
+				b, _ = hex.DecodeString(f[1])
+			}
 			r, n, ok, p := redisemu.VerifParse(l, b)
 			fmt.Fprintf(out, "%v %d %q %s\n", ok, n, p, r)
 		case "EXIT":
